@@ -117,6 +117,10 @@ def _import_state_from_dict(state_d: Mapping[str, Any]) -> StateMixin:
 
     state = None  # type: Any
 
+    if state_d.get('states', None) and state_d.get('parallel states', None):
+        raise StatechartError(
+            '{} cannot declare both a "states" and a "parallel states" property'.format(name))
+
     if stype == 'final':
         state = FinalState(name, on_entry=on_entry, on_exit=on_exit)
     elif stype == 'shallow history':
